@@ -324,7 +324,12 @@ async def _scenario(loop, sc):
         await client.login()
         if sc["rcwd"] != "/":
             await client.change_directory(sc["rcwd"])
+        cur_rcwd = sc["rcwd"]
         for op in sc["ops"]:
+            if op.get("rcwd", cur_rcwd) != cur_rcwd:
+                # the session moves to another working directory between two operations
+                await client.change_directory(op["rcwd"])
+                cur_rcwd = op["rcwd"]
             rec = {"pre_remote": wd.tree(), "pre_local": ldump()}
             try:
                 if op["op"] == "upload":
@@ -386,6 +391,7 @@ def run_many(scs):
 # model lines
 # ------------------------------------------------------------------------------------------------
 def model_line(sc, op, rec):
+    sc = dict(sc, rcwd=op.get("rcwd", sc["rcwd"]))
     m = "1" if sc["mlsx"] else "0"
     head = "%s %s %s" % (m, enc_str(sc["rcwd"]), rec["pre_remote"])
     if op["op"] in ("upload", "download"):
@@ -420,6 +426,7 @@ def oracle_op(sc, op, rec):
     """returns a failure dict or None.  Only scenarios marked valid carry an expectation."""
     if not op.get("valid", True):
         return None
+    sc = dict(sc, rcwd=op.get("rcwd", sc["rcwd"]))
     lcwd = [x for x in sc["lcwd"].split("/") if x]
     rcwd = [x for x in sc["rcwd"].split("/") if x]
     pre_r, pre_l = parse_tree_token(rec["pre_remote"]), parse_tree_token(rec["pre_local"])
@@ -620,6 +627,17 @@ def gen_scenarios(ctx, search=False):
                                  rng.random() < 0.5, lcwd=rng.choice(["/", "/lw"]), rbackend=rb, lbackend=lb,
                                  src_name=rng.choice(["foo", "a", "q", "d2", "s p"]), rem_name=rng.choice(["t2", "r r", "rem"]),
                                  abs_source=rng.random() < 0.7, variant=rng.randrange(1000)))
+    # (4) ONE session, the same relative destination used from two working directories (and again after a remove)
+    for j, node in enumerate(FIXED[:6] + small_dirs[:6]):
+        for d, wi in (("d", True), ("", False), ("d", False), ("d1/d2", True)):
+            for m in (True, False):
+                sc = make_scenario(node, FIXED[j % len(FIXED)], d, wi, "/", m, BLOCKS[n % 3], "", False, variant=n)
+                up = sc["ops"][0]
+                sc["remote"] = sc["remote"] + hexes([(("w2",), None)])
+                sc["ops"] = [dict(up), dict(up, rcwd="/w"), dict(up, rcwd="/w2"), {"op": "list", "path": "", "recursive": True, "rcwd": "/w2"},
+                             {"op": "remove", "path": (d.split("/")[0] if d else "foo"), "rcwd": "/w"}, dict(up, rcwd="/w")]
+                scs.append(sc)
+                n += 1
     # destination collisions that must merge / not collide: dest 'd' while the source contains 'd', etc. are in FIXED
     if not search:
         scs += malformed_scenarios()
